@@ -2,7 +2,7 @@
 From Coq Require Import ZArith List Bool Arith String.
 Import ListNotations.
 From TD Require Import Model.C11_Layout Model.C11_Tree Model.C11_Formats
-  Proofs.C11_LayoutP Proofs.C11_TreeP Proofs.C11_HistP Proofs.C11_WriteP Proofs.C11_FormatsP Proofs.C11_ReorderP.
+  Proofs.C11_LayoutP Proofs.C11_TreeP Proofs.C11_HistP Proofs.C11_WriteP Proofs.C11_FormatsP Proofs.C11_ReorderP Proofs.C11_LockP.
 Open Scope nat_scope.
 
 (* ================================================================= 1. the byte layout (ALL leaf lists, any padding unit) *)
@@ -103,6 +103,13 @@ Theorem C11_pickle_unconsolidated : forall t ops,
   lock_closed_t (cur st) = true -> pickle_roundtrip st = Ok st.
 Proof. exact pickle_unconsolidated. Qed.
 Print Assumptions C11_pickle_unconsolidated.
+
+(* (a') ... and the side condition is an invariant: EVERY history without consolidate() from any lock-closed tensordict *)
+Theorem C11_pickle_unconsolidated_all : forall t ops,
+  lock_closed_t t = true -> forallb op_closed ops = true -> existsb is_cons ops = false ->
+  let st := run {| cur := t; snap := None |} ops in pickle_roundtrip st = Ok st.
+Proof. exact pickle_unconsolidated_all. Qed.
+Print Assumptions C11_pickle_unconsolidated_all.
 
 (* (b) freshly consolidated, nothing locked: the copy is the consolidated tensordict, keys regrouped *)
 Theorem C11_pickle_fresh_partial : forall A np t st, tree_side A np t -> unlocked_t t = true ->
